@@ -15,9 +15,9 @@ from vlib.runner import HERE, Outcome, hyp_search
 
 ID = "C12"
 LEVEL = "exploration"
-RULE = ("Each shard fixes a pool of 13 documents (generated ones that deliberately share object numbers, the resource "
+RULE = ("Each shard fixes a pool of 14 documents (generated ones that deliberately share object numbers, the resource "
         "name /F1, BaseFont names, base encodings differing only in /Differences, predefined CMap names with different "
-        "ToUnicode maps, multi-page members, a grid of equidistant labels, two Type0 fonts sharing one descendant, Type1 fonts with different built-in encodings, a /Font dictionary mixing indirect and direct fonts, two documents encrypted through the same crypt filter name with different keys; plus repository samples incl. an AES-encrypted one and CJK ones). "
+        "ToUnicode maps, multi-page members, a grid of equidistant labels, two Type0 fonts sharing one descendant, Type1 fonts with different built-in encodings, a /Font dictionary mixing indirect and direct fonts, two documents encrypted through the same crypt filter name with different keys, a document whose xref table carries a wrong offset and marks an object free whose body is still in the file; plus repository samples incl. an AES-encrypted one and CJK ones). "
         "Hypothesis draws call histories (model-based op lists) run in one long-lived process: extract_text, "
         "extract_pages to completion, open a page iterator, advance any open iterator (interleaving documents), extract "
         "a single page by page_numbers, extract_text_to_fp(xml); each with caching on/off and LAParams default or "
@@ -129,6 +129,15 @@ def gen_doc(kind, variant):
             for c in range(n):
                 parts.append(b"BT /F1 10 Tf %d %d Td (L%d%d) Tj ET" % (60 + 120 * c, 700 - 100 * r, r, c))
         pages = [b"\n".join(parts), b"\n".join(reversed(parts))]
+    elif kind == "damaged":
+        # a classic table that lies in two ways: the font's entry carries a wrong offset (the object is found by the
+        # body scan the first time it is needed, i.e. while page one is rendered), and object 40 - a content stream
+        # that the last page lists first in /Contents - is marked free although its body is still in the file: a free
+        # object is null whichever pages were rendered before
+        objs[10] = W.simple_font("DamagedFont")
+        objs[15] = W.simple_font("SoundFont")
+        objs[40] = W.Stream({}, b"BT /F2 12 Tf 50 720 Td (GHOST) Tj ET")
+        pages = [b"BT /F1 12 Tf 50 700 Td (Hello %d) Tj ET" % variant, b"BT /F2 12 Tf 50 650 Td (World) Tj ET"]
     elif kind == "crypt":
         # encrypted with the standard security handler, crypt filter /StdCF in every variant but different file keys
         # (and RC4 vs AES): per-document decryption state must not be shared between open documents
@@ -147,6 +156,24 @@ def gen_doc(kind, variant):
         kids.append(W.R(21 + 2 * i))
     objs[1] = W.D(Type=W.N("Catalog"), Pages=W.R(2))
     objs[2] = W.D(Type=W.N("Pages"), Kids=kids, Count=len(kids))
+    if kind == "damaged":
+        # the last page: /Contents [40 0 R <its own stream>]
+        last = 21 + 2 * (len(pages) - 1)
+        objs[last][b"Contents"] = [W.R(40), objs[last][b"Contents"]]
+        # only page one needs the font whose entry is wrong
+        objs[21][b"Resources"] = {b"Font": {b"F1": W.R(10)}}
+        objs[last][b"Resources"] = {b"Font": {b"F2": W.R(15)}}
+        data = bytearray(W.build_pdf(objs))
+        x = data.rindex(b"xref\n0 ")
+        first = data.index(b"\n", x + 5) + 1
+
+        def entry(n):
+            return first + 20 * n
+
+        off10 = int(data[entry(10):entry(10) + 10])
+        data[entry(10):entry(10) + 10] = b"%010d" % (off10 + [7, 3][variant % 2])
+        data[entry(40):entry(40) + 18] = b"0000000000 65535 f"
+        return bytes(data)
     if kind == "crypt":
         from vlib import crypt as CR
         id0 = bytes([variant + 1]) * 16
@@ -184,6 +211,7 @@ def make_pool(rnd):
     pool.append(["gen", "fontfile", fv[0]])
     pool.append(["gen", "fontfile", fv[1]])
     pool.append(["gen", "mixedfonts", rnd.randrange(2)])
+    pool.append(["gen", "damaged", rnd.randrange(2)])
     cv = rnd.sample(range(4), 2)
     pool.append(["gen", "crypt", cv[0]])
     pool.append(["gen", "crypt", cv[1]])
